@@ -344,6 +344,8 @@ func master(cfg *harness.Config, rep *harness.Report) {
 		{"a@b.c", "a_b.c", []string{"col"}, []string{"col"}},
 		{"Alice", "alice", []string{"col"}, []string{"col"}},
 		{"a%20b", "a b", []string{"col"}, []string{"col"}},
+		// each user has (or asks for) a collection named exactly like the other user's id
+		{"alice", "bob", []string{"bob", "col"}, []string{"alice", "col"}},
 		// ids that are patterns (glob / regexp syntax) matching the other id
 		{"team[1]", "team1", []string{"col"}, []string{"col"}},
 		{"a?c", "abc", []string{"col"}, []string{"col"}},
